@@ -107,6 +107,9 @@ class Interp:
 
     # =============================================================== truth / keys
     def vkey(self, v):
+        hook = getattr(v, 'abs_key', None)
+        if hook is not None:
+            return hook()
         if isinstance(v, K):
             try:
                 return ('k', repr(v.v))
@@ -247,6 +250,18 @@ class Interp:
                 elif x != y:
                     return False
             return None if unk else True
+        # byte strings of different (known) lengths are unequal
+        if not (isinstance(a, K) and isinstance(b, K)):
+            def _bl(v):
+                if isinstance(v, K):
+                    return len(v.v) if isinstance(v.v, (bytes, bytearray)) else None
+                if isinstance(v, Term) or (isinstance(v, Sym) and v.meta.get('ty') == 'bytes') or type(v).__name__ == 'Rope':
+                    r = self.models.bytes_len(self, v)
+                    return r.v if isinstance(r, K) else None
+                return None
+            la, lb = _bl(a), _bl(b)
+            if la is not None and lb is not None and la != lb:
+                return False
         if isinstance(a, (Inst, ListV, DictV)) and isinstance(b, K) and b.v is None:
             return False
         if isinstance(b, (Inst, ListV, DictV)) and isinstance(a, K) and a.v is None:
